@@ -12,7 +12,7 @@ def normalise(expect):
                     for toks in [expect.split(" ")] for i, tok in enumerate(toks))
 
 def gen_print(tier, rng):
-    n = 4000 if tier == "quick" else 40000
+    n = 4000 if tier == "quick" else 200000
     out = []
     for d in docs(rng, n):
         r = req_print(d.render())
